@@ -51,10 +51,12 @@ def findOneColl (now : Int) (c : Coll) (filter proj : Val) (sort : Option SortSp
 /-- `_find_and_modify` (after the fix: the target is chosen on the full document) -/
 def findAndModify (cfg : Cfg) (now : Int) (c : Coll) (query proj : Val) (update : Option Val)
     (upsert : Bool) (sort : Option SortSpec) (after : Bool) : Coll × R (Option Val) :=
-  -- `if not (remove or update): raise ValueError`
+  -- `if not remove and update is None: raise ValueError` never fires here: an update document,
+  -- the empty replacement included, is an update; `if update: _validate_update_operators(update)`
+  -- skips the empty one
   match update with
   | some u =>
-    if !u.truthy then (c, .error .valueErr)
+    if !u.truthy then go
     else
       -- `if update: _validate_update_operators(update)`: before the target is looked for
       match (match u with | .doc ufs => validateUpdateOperators ufs | _ => .ok ()) with
